@@ -11,11 +11,11 @@ CHECKS = {
     'C02': dict(
         category='other',
         text='Bounded symbolic execution: the real update_nodes/integrate/compute_end_point of generic_implicit, explicit, imex_1st_order, '
-             'imex_1st_order_mass, multi_implicit, verlet, all Runge-Kutta classes and QDiagonalization run on z3 terms with u0, node values, tau, dt and '
+             'imex_1st_order_mass, multi_implicit, verlet, the linear multistep sweepers, all Runge-Kutta classes and QDiagonalization run on z3 terms with u0, node values, tau, dt and '
              'problem coefficients free; per configuration and clause one SMT validity query shows the result equals the algebraic iteration for '
              'every value of those variables. Configurations (node set, preconditioner name, sweep index) are enumerated within the stated bounds.',
         note='Trusted: z3; reals stand for floats on the data path; the stub problems (exact linear solve); qmat as oracle for the tables the spec is stated against. '
-             'Outside: boris, Multistep, RK-Nystrom, DAE sweepers, nonlinear problems, M > 6.',
+             'Outside: boris, RK-Nystrom, DAE sweepers, nonlinear problems, M > 6.',
         design='4/C02', technique='symbolic execution of real sweeper code + SMT (QF_NRA) validity queries',
     ),
     'C03': dict(
